@@ -346,11 +346,18 @@ func init() {
 				u := FuncUnit{fn, fd, pkg}
 				fc := c.cfgOf(u, nil)
 				hasCall := func(b *cfg.Block, target *types.Func) bool {
-					for _, n := range b.Nodes {
+					callsTarget := func(info *types.Info, n ast.Node) bool {
 						for _, ce := range callsIn(n, false) {
-							if originOf(Callee(pkg.TypesInfo, ce)) == target {
+							if originOf(Callee(info, ce)) == target {
 								return true
 							}
+						}
+						return false
+					}
+					for _, n := range b.Nodes {
+						// directly, or through a helper every non-error path of which makes the call
+						if c.nodeMust(pkg.TypesInfo, pkg.Types, n, callsTarget) {
+							return true
 						}
 					}
 					return false
@@ -371,9 +378,12 @@ func init() {
 					found = true
 					// the reused frame must be reset to non-terminal on every turn
 					termFld := c.LookupField("lisp.CallFrame.Terminal")
-					resets := fc.blocksWith(func(n ast.Node) bool {
+					storesFalse := func(info *types.Info, n ast.Node) bool {
 						as, ok := n.(*ast.AssignStmt)
-						return ok && len(as.Lhs) == 1 && len(as.Rhs) == 1 && termFld != nil && FieldOfSelector(pkg.TypesInfo, as.Lhs[0]) == termFld && isBoolConst(pkg.TypesInfo, as.Rhs[0], false)
+						return ok && len(as.Lhs) == 1 && len(as.Rhs) == 1 && termFld != nil && FieldOfSelector(info, as.Lhs[0]) == termFld && isBoolConst(info, as.Rhs[0], false)
+					}
+					resets := fc.blocksWith(func(n ast.Node) bool {
+						return c.nodeMust(pkg.TypesInfo, pkg.Types, n, storesFalse)
 					})
 					{
 						rest := fc.cyclicSCCs(func(b *cfg.Block) bool { return resets[b] })
